@@ -370,24 +370,44 @@ pub fn c15_case_with(bytes: &[u8], stats: &mut Stats, counting: bool, cfg: &GenC
     let string_args: BTreeMap<String, FieldValue> = case.args.iter().map(|(k, v)| (k.clone(), v.to_field_value())).collect();
     let iq = compiled.iq.clone();
     let world = case.world.clone();
+    // every third case records a second time through the *same* shared tracer (`finish()` documents that it leaves a
+    // fresh trace of the same query and arguments behind): the second trace must equal the first
+    let record_again = prefix_choice % 3 == 0;
     let traced = engine::catch(move || {
         let trace = Trace::new(iq.ir_query.clone(), string_args);
         let tracer = Rc::new(RefCell::new(trace));
-        let (batching, bstats) = if listed {
-            crate::wrappers::BatchingAdapter::new(GraphAdapter::new(world), schedule)
-        } else {
-            crate::wrappers::BatchingAdapter::new_polite(GraphAdapter::new(world), schedule)
+        let make = |world, schedule| {
+            if listed {
+                crate::wrappers::BatchingAdapter::new(GraphAdapter::new(world), schedule)
+            } else {
+                crate::wrappers::BatchingAdapter::new_polite(GraphAdapter::new(world), schedule)
+            }
         };
+        let (batching, bstats) = make(world.clone(), schedule.clone());
         #[allow(clippy::arc_with_non_send_sync)]
         let tap = Arc::new(AdapterTap::new(batching, tracer.clone()));
         let rows: Vec<_> = {
-            let iter = interpret_ir(tap.clone(), iq, args).expect("args accepted before");
+            let iter = interpret_ir(tap.clone(), iq.clone(), args.clone()).expect("args accepted before");
             tap_results(tap.clone(), iter).collect()
         };
         let tap = Arc::try_unwrap(tap).ok().expect("HARNESS: adapter tap still shared");
-        (rows, tap.finish(), (bstats.read_ahead_events.get(), bstats.eager_fills.get(), bstats.polls_after_exhaustion.get()))
+        let first = tap.finish();
+        let again = if record_again {
+            let (batching, _) = make(world, schedule);
+            #[allow(clippy::arc_with_non_send_sync)]
+            let tap = Arc::new(AdapterTap::new(batching, tracer.clone()));
+            let rows: Vec<_> = {
+                let iter = interpret_ir(tap.clone(), iq, args).expect("args accepted before");
+                tap_results(tap.clone(), iter).collect()
+            };
+            let tap = Arc::try_unwrap(tap).ok().expect("HARNESS: adapter tap still shared");
+            Some((rows, tap.finish()))
+        } else {
+            None
+        };
+        (rows, first, again, (bstats.read_ahead_events.get(), bstats.eager_fills.get(), bstats.polls_after_exhaustion.get()))
     });
-    let (traced_rows, trace, (read_ahead_events, eager_fills, polls_after_exhaustion)) = match traced {
+    let (traced_rows, trace, again, (read_ahead_events, eager_fills, polls_after_exhaustion)) = match traced {
         Ok(x) => x,
         Err(p) if p.is_budget() => return Verdict::Discard("too-much-work".into()),
         Err(p) => {
@@ -426,6 +446,30 @@ pub fn c15_case_with(bytes: &[u8], stats: &mut Stats, counting: bool, cfg: &GenC
             sig: "c15:rows-differ-through-tracing-adapter".into(),
             msg: format!("{} rows through AdapterTap vs {} direct\nquery:\n{}", traced_rows.len(), direct_rows.len(), case.query_text),
         };
+    }
+    if let Some((rows2, trace2nd)) = &again {
+        if counting {
+            stats.label("recorded_twice_through_one_tracer");
+        }
+        if rows2 != &traced_rows || trace2nd != &trace {
+            let what = if rows2 != &traced_rows {
+                "rows"
+            } else if trace2nd.arguments != trace.arguments {
+                "arguments"
+            } else if trace2nd.ops != trace.ops {
+                "ops"
+            } else {
+                "query"
+            };
+            return Verdict::Fail {
+                sig: format!("c15:second-recording-through-the-same-tracer-differs|{what}"),
+                msg: format!(
+                    "recording the same execution again through the tracer that `finish()` left behind gave a different trace ({what}): \
+                     {} ops / {} arguments vs {} ops / {} arguments\nquery:\n{}\nargs: {:?}",
+                    trace2nd.ops.len(), trace2nd.arguments.len(), trace.ops.len(), trace.arguments.len(), case.query_text, case.args
+                ),
+            };
+        }
     }
     // serialise, deserialise, replay without the data source
     let text = match ron::to_string(&trace) {
